@@ -33,7 +33,7 @@ def find_ir(ctx, unit, pat):
     m = ctx.ir(unit)
     P = ctx.program_of(unit)
     for f in m.functions.values():
-        if re.search(pat, P.dm(f.name)):
+        if re.search(pat, P.dm(f.name)) and "::$_" not in P.dm(f.name) and "{lambda" not in P.dm(f.name):
             return f
     raise AnalysisBroken("anchor vanished: no function matching %s in %s" % (pat, unit))
 
